@@ -89,6 +89,11 @@ def cases(rng, tier):
                 if kind in ("scalar",):
                     p["s"] = rng.choice([0, 1, 2, 3, 255, -1, 1.5, True])
                 out.append(p)
+                if kind in ("scalar", "npscalar", "column", "ragged", "ragged_bad") and rng.random() < 0.35:
+                    # the in-place form ra op= x (numpy: ufunc(ra, x, out=ra)): the cells change, the object stays, a result that
+                    # cannot be cast back into the array's dtype is refused and nothing changes
+                    q = dict(p, side="right", inplace=True, derived=None, vseed=rng.randint(0, 999))
+                    out.append(q)
     if tier == "thorough":
         # the complete dtype x dtype x operand-kind table on one shape with empty rows
         for dta, dtb in pairs:
@@ -99,7 +104,7 @@ def cases(rng, tier):
 
 
 def key(p):
-    return engine.stable_hash([p["lens"], p["kind"], p["side"], p["uf"], p["dta"], p["dtb"], p.get("other"), p.get("ncol"), p.get("s"), p.get("derived"), p.get("vmode")])
+    return engine.stable_hash([p["lens"], p["kind"], p["side"], p["uf"], p["dta"], p["dtb"], p.get("other"), p.get("ncol"), p.get("s"), p.get("derived"), p.get("vmode"), p.get("inplace")])
 
 
 def nontrivial(p):
@@ -175,9 +180,19 @@ def run_impl(p):
                     x = _derive(RaggedArray(other.copy(), list(p["other"])), p.get("derived"))
                 else:
                     x = other
-                res = uf(ra, x) if p["side"] == "right" else uf(x, ra)
+                if p.get("inplace"):
+                    try:
+                        res = uf(ra, x, out=ra)
+                    except Exception:
+                        if not np.array_equal(ra.ravel().view(np.uint8), a.view(np.uint8)):
+                            raise AssertionError("a refused in-place operation changed the array")
+                        raise
+                    if res is not ra:
+                        raise AssertionError("the in-place form returned another object")
+                else:
+                    res = uf(ra, x) if p["side"] == "right" else uf(x, ra)
         o = {"k": "obs", "result": canon(res), "lengths": canon([int(v) for v in res.lengths])}
-        same_a = bool(np.array_equal(ra.ravel().view(np.uint8), a.view(np.uint8)))
+        same_a = bool(p.get("inplace")) or bool(np.array_equal(ra.ravel().view(np.uint8), a.view(np.uint8)))
         same_x = True
         if isinstance(x, np.ndarray):
             same_x = bool(np.array_equal(x.ravel().view(np.uint8), other.view(np.uint8)))
@@ -229,6 +244,19 @@ def oracle(p):
         if k in ("ragged_bad", "column_bad"):
             return refuse()
         rows, dt = _expected_rows(p)
+        if p.get("inplace"):
+            # numpy's own in-place rule, per row: ufunc(row, operand, out=row) -- refused when the result cannot be cast back
+            a, other = _operands(p)
+            uf = getattr(np, p["uf"])
+            arows = [r.copy() for r in _rows(a, p["lens"])]
+            orows = _rows(other, p["lens"]) if k == "ragged" else None
+            with np.errstate(all="ignore"), warnings.catch_warnings():
+                warnings.simplefilter("ignore")
+                probe = a[:0].copy()
+                uf(probe, other[:0] if k in ("column", "ragged") else other, out=probe)      # raises when the casting is not allowed
+                for i, r in enumerate(arows):
+                    uf(r, other[i] if k == "column" else orows[i] if k == "ragged" else other, out=r)
+            rows, dt = arows, a.dtype
     except Exception:
         return refuse()
     return {"k": "obs", "result": {"k": "ra", "dt": str(dt), "v": [engine._nest(r.tolist()) for r in rows]},
@@ -236,6 +264,8 @@ def oracle(p):
 
 
 def lean_request(p):
+    if p.get("inplace"):
+        return None          # the Lean model has no object identity / casting rule: implementation vs numpy only
     k = p["kind"]
     rows = gens.rows_of_ids(p["lens"])
     n = len(p["lens"])
